@@ -9,7 +9,9 @@ __all__ = ["transpose", "moveaxis", "swapaxes", "roll"]
 
 
 @implements_numpy_override()
-def transpose(a: ArrayLike, *axes: int, constant: Optional[bool] = None) -> Tensor:
+def transpose(
+    a: ArrayLike, *axes: int, constant: Optional[bool] = None, **kwargs
+) -> Tensor:
     """Permute the dimensions of a tensor.
 
     Parameters
@@ -52,6 +54,14 @@ def transpose(a: ArrayLike, *axes: int, constant: Optional[bool] = None) -> Tens
     >>> a.transpose(1, 0)
     Tensor([[1, 3],
             [2, 4]])"""
+    if kwargs:
+        # `numpy.transpose(a, axes=...)` names its second argument
+        if axes or set(kwargs) != {"axes"}:
+            raise TypeError(
+                f"transpose() got unexpected arguments: {axes} {sorted(kwargs)}"
+            )
+        axes = (kwargs["axes"],)
+
     if not axes:
         axes = None
     elif hasattr(axes[0], "__iter__") or axes[0] is None:
